@@ -3,6 +3,8 @@ import Holpy.C12.Model
 /-
 Line protocol of the C12 model (one s-expression in, one out):
   (run FUEL NAMES FILES LAZY MODS PARSE EXT OPS) -> (((RES (EV ...) THY) ...) THY)   one (RES EVs THY-after-the-op) per op
+  (runu FUEL NAMES FILES LAZY MODS PARSE EXT USERS OPSU) -> like run; USERS = ((u NAMES FILES) ...) the libraries of the users
+      other than master (0); OPSU = (load u n LIM FAULT) | (imp m) | (touch u n t) | (edit u n (import ...) (item ...) t) | (reload u)
   (spec K NAMES FILES LAZY MODS PARSE EXT n LIM) -> (ok (item ...)) | (error KIND)
 NAMES = (n ...)                     directory listing
 FILES = ((n (import ...) (item ...) mtime) ...)
@@ -109,6 +111,27 @@ def runOps (W : World) (fuel : Nat) : List Op → State → List Sexp → List S
     let r := step W fuel op { s with log := [] }
     runOps W fuel ops r.2 (.list [.atom (errTo r.1), .list (r.2.log.map evTo), thyTo r.2.thy] :: acc)
 
+def opUOf : Sexp → Option OpU
+  | .list [.atom "load", u, n, l, f] => do some (.load (← u.toNat?) (← n.toNat?) (← limOf l) (← faultOf f))
+  | .list [.atom "imp", m] => do some (.imp (← m.toNat?))
+  | .list [.atom "touch", u, n, t] => do some (.touch (← u.toNat?) (← n.toNat?) (← t.toNat?))
+  | .list [.atom "edit", u, n, is, its, t] => do some (.edit (← u.toNat?) (← n.toNat?) (← natsOf is) (← natsOf its) (← t.toNat?))
+  | .list [.atom "reload", u] => do some (.reloadMeta (← u.toNat?))
+  | _ => none
+
+/-- like `runOps`, several users -/
+def runOpsU (W : World) (fuel : Nat) : List OpU → State → List Sexp → List Sexp × State
+  | [], s, acc => (acc.reverse, s)
+  | op :: ops, s, acc =>
+    let r := stepU W fuel op { s with log := [] }
+    runOpsU W fuel ops r.2 (.list [.atom (errTo r.1), .list (r.2.log.map evTo), thyTo r.2.thy] :: acc)
+
+def userOf : Sexp → Option (Nat × Comp)
+  | .list [u, names, files] => do
+    let fs ← (← files.toList?).mapM fileOf
+    some ((← u.toNat?), { names := (← natsOf names), files := lookupD { imports := [], items := [], mtime := 0 } fs, cache := none })
+  | _ => none
+
 def extOf : Sexp → Option (Item × List Item)
   | .list [i, bs] => do some ((← i.toNat?), (← natsOf bs))
   | _ => none
@@ -130,6 +153,14 @@ def handle (line : String) : String :=
       let (res, s) := runOps W f os (initState ns fs) []
       toString (Sexp.list [.list res, thyTo s.thy])
     | _, _, _ => "bad-op"
+  | some (.list [.atom "runu", fuel, names, files, lazy, mods, parse, ext, users, ops]) =>
+    match fuel.toNat?, setup names files lazy mods parse ext, (users.toList?.bind fun l => l.mapM userOf),
+          (ops.toList?.bind fun l => l.mapM opUOf) with
+    | some f, some (W, ns, fs), some us, some os =>
+      let s0 : State := { initState ns fs with others := fun u => (us.lookup u).getD {} }
+      let (res, s) := runOpsU W f os s0 []
+      toString (Sexp.list [.list res, thyTo s.thy])
+    | _, _, _, _ => "bad-op"
   | some (.list [.atom "spec", k, names, files, lazy, mods, parse, ext, n, lim]) =>
     match k.toNat?, setup names files lazy mods parse ext, n.toNat?, limOf lim with
     | some k, some (W, ns, fs), some n, some l =>
